@@ -14,6 +14,7 @@ import re
 
 from ..fixtures import close_ctx, new_ctx
 from ..pool import run_chunks
+from ..leak import LEAK_ORACLE, Recent, replay_history, settle
 from ..runner import Acc
 from ..treeutil import LEVELK, K
 
@@ -27,6 +28,8 @@ FILLERS = [
     "{X}\n{Y}", "[[a|{X}]]", '<span class="c">{X}</span>', "{{{{#if:1|{X}}}}}", "{X} <!-- c -->",
     # plain text with a '>' and a '<' followed by a word that merely begins like a tag name (u, b, i, s, p, a, q ...)
     "{X} -> a <under b",
+    # one magic construct nested inside another (the line-start handling is switched off and on again around each)
+    "{{{{t|see [[{X}]]}}}}", "{{{{t|k={{{{u|{X}}}}}}}}}", "[[a|{{{{u}}}} {X}]]",
 ]
 TAG_RE = re.compile(r"[HITU]\d+")
 
@@ -201,6 +204,7 @@ def work(payload, skip, report):
     acc = Acc(PROP)
     prefixes, depth, fillers = payload
     ctx = new_ctx()
+    recent = Recent()
     i = 0
     for pre in prefixes:
         for rest in itertools.product(LINES, repeat=depth - len(pre)):
@@ -214,15 +218,33 @@ def work(payload, skip, report):
                 acc.case()
                 if len(got) >= 2:
                     acc.distinct("skeletons", sorted(got.items()))
+                cur = {"input": text, "doc": [list(x) for x in doc], "filler": FILLERS[f]}
+                if out:
+                    # state left behind by an earlier document of this worker?  (see vmc/leak.py)
+                    out, leaked = settle(_run_case, cur, recent, out, new_ctx, close_ctx)
+                    if leaked is not None:
+                        hist, rest = leaked
+                        acc.violation(LEAK_ORACLE, {"history": hist} if hist else dict(cur, history=None),
+                                      [(o, ob) for o, ob, _ in rest][:3], "what a fresh context gives for the last document")
+                        close_ctx(ctx)
+                        ctx = new_ctx()
+                        recent.leaked()
+                recent.push(cur)
                 for oracle, obs, exp in out:
-                    acc.violation(oracle, {"input": text, "doc": [list(x) for x in doc], "filler": FILLERS[f]}, obs, exp)
+                    acc.violation(oracle, cur, obs, exp)
                 if i == 5 or i % 1009 == 0:
                     acc.sample({"input": text})
     close_ctx(ctx)
     return acc
 
 
+def _run_case(ctx, case):
+    return check_doc(ctx, [tuple(x) for x in case["doc"]], FILLERS.index(case["filler"]))[1]
+
+
 def replay(case):
+    if case.get("history"):
+        return replay_history(_run_case, case["history"], new_ctx, close_ctx)
     ctx = new_ctx()
     try:
         doc = [tuple(x) for x in case["doc"]]
